@@ -344,7 +344,9 @@
 (defn weak-known [x] (get weakness x 0))
 (defn weak-by-lead [x] (weak-of-lead (lead-byte x)))
 
-(defn run-case [idx g usereg]
+(defn clean [e] (string/from-bytes ;(map |(if (and (> $ 32) (< $ 127)) $ 95) (string/bytes (string e)))))
+
+(defn run-case-raw [idx g usereg]
   (def rr (if usereg rreg))
   (def bytes (if usereg (marshal g rreg) (marshal g)))
   (def g2 (if usereg (unmarshal bytes reg) (unmarshal bytes)))
@@ -361,6 +363,12 @@
   (def b (buffer/new (/ (length h) 2)))
   (for i 0 (/ (length h) 2) (buffer/push-byte b (scan-number (string "16r" (string/slice h (* 2 i) (+ 2 (* 2 i)))))))
   b)
+
+(defn run-case [idx g usereg]
+  (try (run-case-raw idx g usereg)
+    ([e] (def d (try (describe g (if usereg rreg) weak-known) ([_] "?")))
+         (def b (try (hex (if usereg (marshal g rreg) (marshal g))) ([_] "-")))
+         (print idx " FAIL:error:" (clean e) " " (if usereg 1 0) " " b " " d))))
 
 (defn main-gen []
   # no automatic collection inside a case (weakly held parts of the copy must survive until they are compared)
